@@ -5,10 +5,12 @@
 package c0203
 
 import (
+	"bytes"
 	"context"
 	"fmt"
 	"os"
 	"path/filepath"
+	"runtime"
 	"sort"
 	"strings"
 	"sync"
@@ -57,9 +59,10 @@ type RunEv struct {
 }
 
 type capture struct {
-	mu   sync.Mutex
-	envs map[string][]string // env id -> published environment states, in order
-	runs map[string][]RunEv
+	mu    sync.Mutex
+	envs  map[string][]string // env id -> published environment states, in order
+	runs  map[string][]RunEv
+	tasks map[string]int // task id -> number of task events published (one per applied state / status update)
 }
 
 func (c *capture) WriteEvent(e interface{}) {
@@ -67,6 +70,10 @@ func (c *capture) WriteEvent(e interface{}) {
 	case *evpb.Ev_EnvironmentEvent:
 		c.mu.Lock()
 		c.envs[ev.EnvironmentId] = append(c.envs[ev.EnvironmentId], ev.State)
+		c.mu.Unlock()
+	case *evpb.Ev_TaskEvent:
+		c.mu.Lock()
+		c.tasks[ev.Taskid]++
 		c.mu.Unlock()
 	case *evpb.Ev_RunEvent:
 		c.mu.Lock()
@@ -117,7 +124,7 @@ func greedyYAML(name, mode string) string {
 
 func NewWorld(workDir string, hosts int, verbose bool) (*World, error) {
 	w := &World{Rec: vplugin.NewRecorder("run_number", "run_end_time_ms"), Hosts: hosts,
-		cap:    &capture{envs: map[string][]string{}, runs: map[string][]RunEv{}},
+		cap:    &capture{envs: map[string][]string{}, runs: map[string][]RunEv{}, tasks: map[string]int{}},
 		byTask: map[string]*taskRef{}, hooks: map[string]func(){}}
 	classes := map[string]string{}
 	for _, m := range []string{"basic", "direct", "fairmq"} {
@@ -152,6 +159,7 @@ func NewWorld(workDir string, hosts int, verbose bool) (*World, error) {
 	// simcore resets nothing in package the; make sure our writers are still installed
 	the.VerifC02SetEventWriter(topic.Environment, w.cap)
 	the.VerifC02SetEventWriter(topic.Run, w.cap)
+	the.VerifC02SetEventWriter(topic.Task, w.cap)
 	w.Sim = s
 	s.Beh.Launch = func(ti mesos.TaskInfo) string { return "silent" } // the director reports tasks in
 	s.Beh.Command = func(taskId, cls, ev string) simcore.CmdOutcome {
@@ -229,6 +237,8 @@ type Env struct {
 	mu         sync.Mutex
 	outcomes   []simcore.CmdOutcome // for the command in flight, by position
 	activeSeen []bool               // by position: the director saw the launched task ACTIVE in the roster
+	cmdBase    map[int]int          // position -> task events published when the last command reached the task
+	trace      []string             // what the director of Create did and when (diagnosis of a failed creation)
 	finished   bool
 	evMark     int // index into the captured state list where the current request began
 	callMark   int
@@ -237,10 +247,17 @@ type Env struct {
 func (e *Env) outcome(idx int) simcore.CmdOutcome {
 	e.mu.Lock()
 	defer e.mu.Unlock()
-	if e.finished || idx >= len(e.outcomes) {
-		return simcore.CmdAck
+	out := simcore.CmdAck
+	if !e.finished && idx < len(e.outcomes) {
+		out = e.outcomes[idx]
 	}
-	return e.outcomes[idx]
+	if (out == simcore.CmdAck || out == simcore.CmdErrSource || out == simcore.CmdErrError) && idx < len(e.TaskIds) && e.TaskIds[idx] != "" {
+		// a reply will come: remember how many task events the task had published (AwaitReplies)
+		e.W.cap.mu.Lock()
+		e.cmdBase[idx] = e.W.cap.tasks[e.TaskIds[idx]]
+		e.W.cap.mu.Unlock()
+	}
+	return out
 }
 
 // AllRunActive: every task scripted to run (launch[i] "run" or absent) was launched and seen ACTIVE in
@@ -257,6 +274,20 @@ func (e *Env) AllRunActive(launch []string) bool {
 		}
 	}
 	return true
+}
+
+// Trace: what the director of Create did (task seen in the roster, reported in, seen ACTIVE / ERROR),
+// with the milliseconds since Create began.  Diagnosis only.
+func (e *Env) Trace() []string {
+	e.mu.Lock()
+	defer e.mu.Unlock()
+	return append([]string(nil), e.trace...)
+}
+
+func (e *Env) note(t0 time.Time, format string, a ...interface{}) {
+	e.mu.Lock()
+	e.trace = append(e.trace, fmt.Sprintf("%dms ", time.Since(t0).Milliseconds())+fmt.Sprintf(format, a...))
+	e.mu.Unlock()
 }
 
 func (e *Env) SetOutcomes(oc []simcore.CmdOutcome) {
@@ -363,6 +394,61 @@ func (e *Env) Commanded(event string) []int {
 	}
 	sort.Ints(out)
 	return out
+}
+
+// TaskEvents: by position, how many task events the core has published for the task so far.  The core
+// applies every state reply and every Mesos status update of a task in a goroutine of its own
+// (go m.updateTaskState / go m.updateTaskStatus), each of which publishes exactly one task event
+// after writing the task and before updating the role.
+func (e *Env) TaskEvents() []int {
+	out := make([]int, len(e.TaskIds))
+	e.W.cap.mu.Lock()
+	for i, tid := range e.TaskIds {
+		if tid != "" {
+			out[i] = e.W.cap.tasks[tid]
+		}
+	}
+	e.W.cap.mu.Unlock()
+	return out
+}
+
+// UpdatesInFlight: some goroutine of this process is inside the core's updateTaskState /
+// updateTaskStatus (read off the goroutine dump: the core runs in-process).
+func UpdatesInFlight() bool {
+	buf := make([]byte, 1<<20)
+	for {
+		n := runtime.Stack(buf, true)
+		if n < len(buf) {
+			buf = buf[:n]
+			break
+		}
+		buf = make([]byte, 2*len(buf))
+	}
+	return bytes.Contains(buf, []byte("task.(*Manager).updateTaskState")) || bytes.Contains(buf, []byte("task.(*Manager).updateTaskStatus"))
+}
+
+// AwaitReplies waits (at most d) until the state update of every reply to the commands this
+// environment's tasks have received since the last call has been applied - the task event count of
+// the task has grown past what it was when the command reached the (simulated) executor - and no
+// update goroutine is in flight any more.  The core applies the replies after the request has
+// returned, each in a goroutine of its own, in any order: one that is still pending when the next
+// command is answered overwrites the newer state (a schedule of its own, C03's subject), and when it
+// carries the state the task already has (error reply in the source state) nothing shows that it is
+// still pending.
+func (e *Env) AwaitReplies(d time.Duration) bool {
+	e.mu.Lock()
+	pend := e.cmdBase
+	e.cmdBase = map[int]int{}
+	e.mu.Unlock()
+	return simcore.WaitFor(d, func() bool {
+		now := e.TaskEvents()
+		for i, base := range pend {
+			if i < len(now) && now[i] < base+1 {
+				return false
+			}
+		}
+		return !UpdatesInFlight()
+	})
 }
 
 // Accepts: number of ACCEPT calls (task launches) since Mark.
@@ -474,11 +560,12 @@ func (w *World) Create(name string, tasks []Task, launch []string, cfg []string,
 	if err := os.WriteFile(filepath.Join(w.Sim.RepoDir, "workflows", name+".yaml"), []byte(y), 0o644); err != nil {
 		return nil, CreateResult{Err: err}
 	}
-	e := &Env{W: w, Id: uid.New(), Name: name, Tasks: tasks, TaskIds: make([]string, len(tasks)), activeSeen: make([]bool, len(tasks))}
+	e := &Env{W: w, Id: uid.New(), Name: name, Tasks: tasks, TaskIds: make([]string, len(tasks)), activeSeen: make([]bool, len(tasks)), cmdBase: map[int]int{}}
 	e.SetOutcomes(ParseOutcomes(cfg, len(tasks)))
 	e.Mark()
 	stop := make(chan struct{})
 	dirDone := make(chan struct{})
+	tCreate := time.Now()
 	stopped := func() bool {
 		select {
 		case <-stop:
@@ -524,9 +611,12 @@ func (w *World) Create(name string, tasks []Task, launch []string, cfg []string,
 				if it.idx < len(launch) && launch[it.idx] != "" {
 					how = launch[it.idx]
 				}
+				e.note(tCreate, "t%d in roster (%s), %s", it.idx, it.tid, how)
 				switch how {
 				case "run":
-					w.Sim.C02MarkRunning(it.tid)
+					if !w.Sim.C02MarkRunning(it.tid) {
+						e.note(tCreate, "t%d not live in the simulated master", it.idx)
+					}
 					// returns as soon as the status is there; the bound only matters on a very slow machine
 					// (or when the creation is over)
 					active := false
@@ -537,6 +627,7 @@ func (w *World) Create(name string, tasks []Task, launch []string, cfg []string,
 					e.mu.Lock()
 					e.activeSeen[it.idx] = active
 					e.mu.Unlock()
+					e.note(tCreate, "t%d active=%v (roster status %s)", it.idx, active, w.taskStatus(it.tid))
 					time.Sleep(time.Millisecond) // let the DEPLOY loop get back to its select
 				case "fail":
 					w.Sim.FailTask(it.tid, mesos.TASK_FAILED)
@@ -564,6 +655,7 @@ func (w *World) Create(name string, tasks []Task, launch []string, cfg []string,
 			res.Hang = true
 		}
 	}
+	e.note(tCreate, "creation returned (hang=%v)", res.Hang)
 	close(stop)
 	<-dirDone
 	e.E, _ = w.Sim.Envman.Environment(e.Id)
